@@ -85,6 +85,9 @@ def _check(prop, tier, only) -> int:
 
     def fn(ctx):
         mod.run(ctx)
+        from . import shared
+
+        shared.apply(ctx, prop)
         if only is not None:
             ctx.findings = [f for f in ctx.findings if f.key == only]
         if tier == "thorough" and only is None and not os.environ.get("VERIF_NO_SELFTEST") and not os.environ.get("VERIF_NO_EVIDENCE"):
